@@ -47,6 +47,7 @@ var sharedRoots = []string{"Func", "ValueSet", "Value"}
 type ownership struct {
 	perCall map[string]bool
 	shared  map[string]bool
+	derived []string // per-call by the structural rule (not in the reviewed table)
 }
 
 func (c *Ctx) ownership() *ownership {
@@ -96,6 +97,23 @@ func (c *Ctx) ownership() *ownership {
 			visit(m.Type())
 		}
 	}
+	// structural extension: an unexported named type of the target packages that is not reachable from the shared
+	// roots cannot be reached through them; its instances live in locals of one activation (globals and captured
+	// variables are covered by SHARED-G / SHARED-C). New local helper types (work lists, walk states) are per-call.
+	for _, pkg := range []*ssa.Package{p.Arg, p.Graph} {
+		for _, m := range pkg.Members {
+			t, ok := m.(*ssa.Type)
+			if !ok || t.Object().Exported() {
+				continue
+			}
+			name := core.TypeStr(t.Type())
+			if !o.shared[name] && !o.perCall[name] {
+				o.perCall[name] = true
+				o.derived = append(o.derived, name)
+			}
+		}
+	}
+	sort.Strings(o.derived)
 	if c.memo == nil {
 		c.memo = map[string]interface{}{}
 	}
